@@ -436,7 +436,14 @@ class Gen:
 
     def attrsegs(self, dynamic: bool = True):
         n = self.r.choice([1, 1, 1, 2, 2, 3])
-        return tuple(self.attrseg(dynamic) for _ in range(n))
+        segs = [self.attrseg(dynamic) for _ in range(n)]
+        if n >= 2 and self.r.random() < 0.08:
+            # multi-byte characters in a quoted segment that is followed by further segments (byte and character
+            # offsets of the later dots differ)
+            segs[self.r.randrange(n - 1)] = ("qname", (("frag", self.r.choice(["café", "日本", "naïve→x", "ß", "éé é"])),))
+            if segs[-1][0] == "name" and len(segs[-1][1]) < 4:
+                segs[-1] = ("name", segs[-1][1] + "Enable")
+        return tuple(segs)
 
     def bindings(self, max_size: int = 5):
         r = self.r
